@@ -55,7 +55,14 @@ def scratch(name):
     return d
 
 
-def run_shards(binary, scenarios, workdir, nproc=None, timeout=900, args=()):
+def _limit_memory(gb):
+    def f():
+        import resource
+        resource.setrlimit(resource.RLIMIT_AS, (gb << 30, gb << 30))
+    return f
+
+
+def run_shards(binary, scenarios, workdir, nproc=None, timeout=900, args=(), mem_gb=None, streaming=False):
     """Runs the scenarios through `binary', split over nproc processes; returns
     the concatenated trace lines (parsed) per scenario id, in scenario order."""
     nproc = min(nproc or NPROC, max(1, len(scenarios)))
@@ -69,7 +76,8 @@ def run_shards(binary, scenarios, workdir, nproc=None, timeout=900, args=()):
             os.makedirs(sdir, exist_ok=True)
             inp = "\n".join(json.dumps(s) for s in todo) + "\n"
             p = subprocess.run([binary, "-scratch", sdir] + list(args), input=inp, stdout=subprocess.PIPE,
-                               stderr=subprocess.PIPE, text=True, timeout=timeout)
+                               stderr=subprocess.PIPE, text=True, timeout=timeout,
+                               preexec_fn=_limit_memory(mem_gb) if mem_gb else None)
             shutil.rmtree(sdir, ignore_errors=True)
             if p.returncode == 0:
                 out += p.stdout
@@ -80,18 +88,28 @@ def run_shards(binary, scenarios, workdir, nproc=None, timeout=900, args=()):
             # traces are flushed when a scenario ends: everything on stdout is
             # complete, the first scenario without a trace is the one that was running
             done = set(json.loads(l)["scn"] for l in p.stdout.splitlines() if l.startswith('{"a":"Reset"'))
-            m = re.search(r"^panic: (.*)$", p.stderr, re.M)
+            partial = None
+            if streaming:
+                # the binary writes as it goes and closes every scenario with an End line:
+                # the scenario that was begun and not ended is the one that was running
+                ended = set(json.loads(l)["scn"] for l in p.stdout.splitlines() if l.startswith('{"a":"End"'))
+                partial = next((x for x in done if x not in ended), None)
+                done = ended
+            m = re.search(r"^(?:panic|fatal error): (.*)$", p.stderr, re.M)
             rest = [s["scn"] for s in todo if s["scn"] not in done]
             if not m or not rest:
+                open(os.path.join(SCRATCH_ROOT, "last_crash.err"), "w").write(p.stderr)
                 raise InfraError("%s exited %d: %s" % (binary, p.returncode, p.stderr[-2000:]))
             culprit = rest[0]
             frames = re.findall(r"^\s+(/\S+\.go):\d+", p.stderr, re.M)
             first = next((f for f in frames if "/runtime/" not in f and "/src/" not in f), "")
             in_db = first.startswith(REPO + "/") or "/getlantern/" in first
             out += p.stdout
-            out += json.dumps({"a": "Reset", "scn": culprit}) + "\n"
+            if culprit != partial:
+                out += json.dumps({"a": "Reset", "scn": culprit}) + "\n"
             out += json.dumps({"a": "ProcessCrash", "scn": culprit, "panic": m.group(1), "in_database_code": in_db,
-                               "top_frame": first, "stderr_tail": p.stderr[-1500:]}) + "\n"
+                               "top_frame": first, "stderr_tail": p.stderr[-1500:],
+                               "stderr_full": p.stderr[:6000]}) + "\n"
             idx = [s["scn"] for s in todo].index(culprit)
             todo = todo[idx + 1:]
         return out
